@@ -115,12 +115,14 @@ def run(ck):
     bins = build_many([(b, t, "release", f) for b, t, f in specs], jobs=3)
     ops = gen(ck.rng, quick)
     sp = os.path.join(ck.workdir, "script.ndjson")
+    spz = os.path.join(ck.workdir, "script.nz.ndjson")
     write_script(sp, ops)
+    write_script(spz, nz_filter(ops))
     traces = []
     for b, t, f in specs:
         cid = cfg_id(b, t, "release", f)
         tp = os.path.join(ck.workdir, cid + ".trace.ndjson")
-        run_driver(bins[cid], cid, sp, tp)
+        run_driver(bins[cid], cid, spz if f else sp, tp)
         traces.append((cid, tp))
     ck.validate(traces)
     ck.add_sample_events(traces[0][1], 4)
